@@ -1,5 +1,6 @@
 import Qhttp.Model.Http
 import Qhttp.Lemmas.C19Step
+import Qhttp.Lemmas.C19After
 /-
   C19 — one request per connection; nothing is sent or routed after the close.
 -/
@@ -210,5 +211,190 @@ example :
     Obs.countP Obs.isHp l = 1 ∧ Obs.countP isRt l = 1 ∧ Obs.countP Obs.isTc l = 1 ∧
     Obs.countP Obs.isDc l = 1 ∧ Obs.countP Obs.isW l = 2 ∧ pending exEvents l 0 0 = 0 := by
   decide +kernel
+
+end Qhttp.C19
+
+/-! ## Nothing is routed after the close: `holdsStrict`
+
+  The statement asked for,
+
+      theorem holdsStrict_run (env) (app) (evs) (happ : AppOK app) (hevs : evs.all evOK = true) :
+          holdsStrict ⟨app, evs⟩ (Scenario.run env ⟨app, evs⟩).log = true
+
+  is FALSE for the class `AppOK`: `AppOK` lets the `headersParsed` slot record its one routing
+  anywhere in its call list, also after a `close` (`cxApp` below: `[.close, .note (.rt 1 path)]`
+  gives the history `ev 0, ev 1, hp, tc, dc, rt` — `not_holdsStrict_run_AppOK`).  It is proved for
+  the class `AppOKStrict`: `AppOK`, and the routing note, if any, is the FIRST call of the slot
+  (Server glue: `route` is entered before the handler touches the socket).
+-/
+
+namespace Qhttp.C19
+open Qhttp
+
+theorem routedAfterClose_eq (l : List Obs) : routedAfterClose l = C19L.rac l := by
+  unfold routedAfterClose C19L.rac
+  rw [isRt_eq]; rfl
+
+/-- `AppOK`, and in the `headersParsed` slot every call after the first is quiet: the routing
+    is recorded before anything else is done with the socket -/
+structure AppOKStrict (app : App) : Prop where
+  ok : AppOK app
+  first : ∀ s, ((app.onHp s).drop 1).all quietOp = true
+
+theorem AppOKStrict.hpFirst {app : App} (h : AppOKStrict app) (s : Sock) :
+    C19L.hpFirst (app.onHp s) = true := by
+  have h1 := (h.ok.hp s).1
+  have h2 := h.first s
+  rw [hpOp_eq] at h1
+  rw [quietOp_eq] at h2
+  cases hops : app.onHp s with
+  | nil => rfl
+  | cons op rest =>
+    rw [hops] at h1 h2
+    simp only [List.all_cons, Bool.and_eq_true] at h1
+    simp only [List.drop_succ_cons, List.drop_zero] at h2
+    simp [C19L.hpFirst, h1.1, h2]
+
+/-- the invariant behind `holdsStrict`, at the end of every run: no `hp`/`rt` after the first
+    `tc`, and a socket still reading the request head has not shut its transport -/
+theorem run_after (env : Env) (app : App) (evs : List Event)
+    (happ : AppOKStrict app) (hevs : evs.all evOK = true) :
+    routedAfterClose (Scenario.run env ⟨app, evs⟩).log = false ∧
+    ((Scenario.run env ⟨app, evs⟩).rs = .headers →
+      (Scenario.run env ⟨app, evs⟩).log.any Obs.isTc = false) := by
+  rw [evOK_eq] at hevs
+  have h := C19L.run_A (env := env) happ.ok.toL.toQ happ.hpFirst evs hevs
+  rw [routedAfterClose_eq]
+  exact h
+
+/-- every environment, every event list, every application of the strict class: the predicate
+    the driver evaluates holds on the model's history -/
+theorem holdsStrict_run (env : Env) (app : App) (evs : List Event)
+    (happ : AppOKStrict app) (hevs : evs.all evOK = true) :
+    holdsStrict ⟨app, evs⟩ (Scenario.run env ⟨app, evs⟩).log = true := by
+  unfold holdsStrict
+  rw [holds_run env app evs happ.ok hevs, (run_after env app evs happ hevs).1]
+  rfl
+
+/-! ### what `routedAfterClose` means -/
+
+/-- `routedAfterClose l = false` iff no `hp` and no `rt` follows any `tc` of the history -/
+theorem routedAfterClose_false_iff (l : List Obs) :
+    routedAfterClose l = false ↔
+      ∀ pre post, l = pre ++ Obs.tc :: post → ∀ o ∈ post, Obs.isHp o = false ∧ isRt o = false := by
+  unfold routedAfterClose
+  induction l with
+  | nil =>
+    constructor
+    · intro _ pre post h; cases pre <;> cases h
+    · intro _; rfl
+  | cons x l ih =>
+    by_cases hx : Obs.isTc x = true
+    · have hxe : x = .tc := by cases x <;> simp [Obs.isTc] at hx; rfl
+      subst hxe
+      simp only [List.dropWhile_cons, Obs.isTc, Bool.not_true, Bool.false_eq_true, ↓reduceIte]
+      constructor
+      · intro h pre post hl o ho
+        have hmem : o ∈ Obs.tc :: l := by
+          rw [hl]; exact List.mem_append_right _ (List.mem_cons_of_mem _ ho)
+        have := (List.any_eq_false.mp h) o hmem
+        simpa using this
+      · intro h
+        have := h [] l rfl
+        have hl : (l.any fun o => Obs.isHp o || isRt o) = false := by
+          rw [List.any_eq_false]
+          intro o ho
+          have := this o ho
+          simp [this.1, this.2]
+        rw [List.any_cons, hl]; rfl
+    · have hx' : Obs.isTc x = false := by simpa using hx
+      simp only [List.dropWhile_cons, hx', Bool.not_false, ↓reduceIte]
+      rw [ih]
+      constructor
+      · intro h pre post hl
+        cases pre with
+        | nil =>
+          simp only [List.nil_append, List.cons.injEq] at hl
+          rw [hl.1] at hx'; cases hx'
+        | cons y pre =>
+          simp only [List.cons_append, List.cons.injEq] at hl
+          exact h pre post hl.2
+      · intro h pre post hl
+        exact h (x :: pre) post (by rw [hl]; rfl)
+
+/-- `holdsStrict`, spelled out -/
+theorem holdsStrict_iff (sc : Scenario) (obs : List Obs) :
+    holdsStrict sc obs = true ↔
+      holds sc obs = true ∧
+      ∀ pre post, obs = pre ++ Obs.tc :: post →
+        ∀ o ∈ post, Obs.isHp o = false ∧ isRt o = false := by
+  unfold holdsStrict
+  rw [Bool.and_eq_true, ← routedAfterClose_false_iff]
+  simp
+
+/-! ### the class `AppOK` is too wide for `holdsStrict` -/
+
+/-- allowed by `AppOK`: close first, record the routing afterwards -/
+def cxApp : App := { onHp := fun s => [.close, .note (.rt 1 s.path)] }
+
+theorem cxApp_ok : AppOK cxApp :=
+  ⟨fun _ => by simp [cxApp, hpOp, isRtNote, quietOp, List.filter], fun _ => rfl, fun _ => rfl,
+   fun _ => rfl, fun _ => rfl⟩
+
+def cxEvents : List Event :=
+  [.new, .feed (lit ['G','E','T',' ','/','a',' ','H','T','T','P','/','1','.','1','\r','\n','\r','\n'])]
+
+/-- its history: the routing is recorded after the transport was shut -/
+example : (Scenario.run exEnv ⟨cxApp, cxEvents⟩).log
+    = [.ev 0, .ev 1, .hp, .tc, .dc, .rt 1 [47, 97]] := by decide +kernel
+
+theorem cx_holds : holds ⟨cxApp, cxEvents⟩ (Scenario.run exEnv ⟨cxApp, cxEvents⟩).log = true := by
+  decide +kernel
+
+theorem cx_not_holdsStrict :
+    holdsStrict ⟨cxApp, cxEvents⟩ (Scenario.run exEnv ⟨cxApp, cxEvents⟩).log = false := by
+  decide +kernel
+
+/-- `holdsStrict_run` cannot be had for `AppOK` -/
+theorem not_holdsStrict_run_AppOK :
+    ¬ ∀ (env : Env) (app : App) (evs : List Event), AppOK app → evs.all evOK = true →
+        holdsStrict ⟨app, evs⟩ (Scenario.run env ⟨app, evs⟩).log = true := by
+  intro h
+  have := h exEnv cxApp cxEvents cxApp_ok (by decide)
+  rw [cx_not_holdsStrict] at this
+  cases this
+
+/-! ### non-vacuity -/
+
+/-- Bool check on a scripted application -/
+def scriptStrictOK (sc : Script) : Bool := scriptOK sc && (sc.onHp.drop 1).all quietOp
+
+theorem Script.appOKStrict (sc : Script) (h : scriptStrictOK sc = true) : AppOKStrict sc.app := by
+  simp only [scriptStrictOK, Bool.and_eq_true] at h
+  exact ⟨Script.appOK sc h.1, fun _ => h.2⟩
+
+example : AppOKStrict exScript.app := Script.appOKStrict _ (by decide)
+
+/-- the Server glue of `exApp` (route on the parsed path first, then answer and close) -/
+theorem exApp_strict : AppOKStrict exApp := ⟨exApp_ok, fun _ => rfl⟩
+
+/-- two pipelined requests, late API calls, late input: the second request and the late input
+    are neither notified nor routed -/
+example : holdsStrict ⟨exApp, exEvents⟩ (Scenario.run exEnv ⟨exApp, exEvents⟩).log = true := by
+  decide +kernel
+
+example : (Scenario.run exEnv ⟨exApp, exEvents⟩).log.any Obs.isTc = true := by decide +kernel
+
+/-- the same history with the second pipelined request handed to the application after the
+    close (what a library serving a second request on the connection would produce) -/
+def tamperedLog : List Obs :=
+  (Scenario.run exEnv ⟨exApp, exEvents⟩).log ++ [.hp, .rt 1 [47, 98]]
+
+example : routedAfterClose (Scenario.run exEnv ⟨exApp, exEvents⟩).log = false := by decide +kernel
+example : routedAfterClose tamperedLog = true := by decide +kernel
+example : holdsStrict ⟨exApp, exEvents⟩ tamperedLog = false := by decide +kernel
+/-- a routing entry alone after the close is caught by `routedAfterClose` only when it is the
+    first one (`holds` counts `rt` but does not place it) -/
+example : routedAfterClose [.ev 0, .hp, .tc, .dc, .rt 1 [47, 97]] = true := by decide
 
 end Qhttp.C19
